@@ -8,9 +8,8 @@
                                   `getStateObject`, `GetOrNewStateObject`, `createObject`,
                                   `CreateAccount`, `SubBalance`, `AddBalance` (zero-amount touch rule),
                                   `SetNonce`, `SetCode`, `Suicide`, `Finalise`, `deleteStateObject`, `Reset`
-    * vm/journal.go               what `RevertToSnapshot` leaves behind: `balanceChange.revert` /
-                                  `suicideChange.revert` go through the journaling `SetBalance`, so the
-                                  address stays dirty (`markDirty`)
+    * vm/journal.go               `RevertToSnapshot` restores the snapshot exactly (the undo of a
+                                  balance entry no longer journals a new one, d411c44)
     * vm/state_transition.go      `IntrinsicGas`, `preCheck`, `buyGas`, `TransitionDb`, `refundGas`
     * go-ethereum core/vm/evm.go  the outer layer of `EVM.Call` and `EVM.create` (existence test,
                                   account creation, nonce bump, collision test, value transfer,
@@ -95,12 +94,13 @@ def nativeBalance (w : World) (a : Addr) : Int := bal w.bal a
 def setAccount (w : World) (a : Addr) (o : Obj) : World :=
   { w with keeper := upsert w.keeper a ⟨o.nonce, o.code⟩, bal := setBal w.bal a o.bal }
 
-/-- `RemoveAccount` (as repaired): deletes the keeper record and, because the coins live in the
-    balance store, writes the removed account's coins there when the stored amount differs (zero
-    after `Suicide`; nothing is written for an empty touched object whose record is already 0) -/
-def removeAccount (w : World) (a : Addr) (o : Obj) : World :=
+/-- `RemoveAccount` (as repaired by da864f3 / c90a103): deletes the keeper record and, because the
+    coins live in the balance store, leaves a ZERO balance record whenever the stored amount is not
+    zero. A removed account is gone with whatever it still holds: what a contract is paid after its
+    SELFDESTRUCT is burnt, as in go-ethereum. -/
+def removeAccount (w : World) (a : Addr) : World :=
   { w with keeper := aerase w.keeper a,
-           bal := if bal w.bal a = o.bal then w.bal else setBal w.bal a o.bal }
+           bal := if bal w.bal a = 0 then w.bal else setBal w.bal a 0 }
 
 /-! ## CommitStateDB -/
 
@@ -178,20 +178,12 @@ def createAccount (s : St) (a : Addr) : St :=
   | some p => putObj s a { freshObj s a with bal := p.bal }
   | none => putObj s a (freshObj s a)
 
-/-- what a REVERTED balance entry leaves behind: `balanceChange.revert` and `suicideChange.revert`
-    restore the value through the journaling `SetBalance`, so the address keeps a dirty mark after
-    `RevertToSnapshot` as long as its object is still there (an object created after the snapshot
-    is removed by `createObjectChange.revert`) -/
-def markDirty (s : St) (a : Addr) : St :=
-  match peek s a with
-  | some o => putObj s a { o with dirty := true }
-  | none => s
-
-def markAll (s : St) (l : List Addr) : St := l.foldl markDirty s
+/-- `Finalise` drops the object: suicided, or dirty and empty (`deleteEmptyObjects`) -/
+def gone (o : Obj) : Bool := o.suicided || (o.dirty && isEmpty o)
 
 /-- one entry of `Finalise`'s loop over `stateObjects` -/
 def finaliseObj (w : World) (p : Addr × Obj) : World :=
-  if p.2.suicided || (p.2.dirty && isEmpty p.2) then removeAccount w p.1 p.2
+  if gone p.2 then removeAccount w p.1
   else if p.2.dirty then setAccount w p.1 p.2
   else w
 
@@ -219,7 +211,6 @@ structure VmOut where
   failed  : Bool         -- the returned error is non-nil (revert, out of gas, invalid opcode, …)
   retCode : Bool         -- creation only: the init code returned non-empty runtime code
   effs    : List Eff     -- the calls that survived (empty after a failed run)
-  touched : List Addr    -- addresses of balance entries the interpreter's own reverts undid
   deriving DecidableEq, Repr
 
 /-- `none` = the Go code panics ("Failed to minus balance", caught by `handlePanic`) -/
@@ -256,6 +247,10 @@ structure Tx where
   amtCurOk : Bool             -- amount currency is registered and is OLT
   addrOk   : Bool             -- `From.Err() == nil ∧ (To == nil ∨ To.Err() == nil)`
   chainNil : Bool             -- the payload carries no chain id
+  payloadCanon : Bool         -- the payload bytes are what `Marshal` produces for the decoded value
+  signerKeyOk : Bool          -- the handler address of `Signatures[0].Signer` equals `From`
+  typeOk   : Bool             -- `TxType` is 0 (legacy) and there is no access list
+  memoCanon : Bool            -- the memo string is exactly `FormatUint(nonce)`
   deriving DecidableEq, Repr
 
 structure Env where
@@ -281,7 +276,7 @@ def simulationBlockGasLimit : Nat := 100000000
 def txMaxSize : Nat := 131072
 
 inductive VErr where
-  | notEnabled | sigCount | sigBad | chainId | sender | feeCurrency | feePrice | currency | address
+  | notEnabled | payloadEnc | sigCount | sigBad | chainId | sender | signerKey | txType | feeCurrency | feePrice | currency | address
   | oversized | negative | gasLimit | nonceLow | funds | intrinsic | memoParse | memoNonce
   deriving DecidableEq, Repr
 
@@ -289,12 +284,17 @@ inductive VErr where
     (persisted records), not through the live object cache. -/
 def validate (env : Env) (w : World) (tx : Tx) : Option VErr :=
   if !env.enabled then some .notEnabled
+  -- only the encoding `Marshal` produces is admitted (the signature covers the decoded fields)
+  else if !tx.payloadCanon then some .payloadEnc
   -- validateSigner
   else if tx.sigs ≠ 1 then some .sigCount
   else if tx.chainNil then some .chainId        -- checked before the pointer is used
   else if !tx.sigOk then some .sigBad           -- checked before `WithSignature` (which would panic)
   else if !tx.chainOk then some .chainId
   else if !tx.senderOk then some .sender
+  else if !tx.signerKeyOk then some .signerKey  -- the envelope's public key is outside the signature
+  -- type and access list are outside the signature too
+  else if !tx.typeOk then some .txType
   -- ValidateFee
   else if !tx.feeCurOk then some .feeCurrency
   else if tx.price < env.minFee then some .feePrice
@@ -312,7 +312,7 @@ def validate (env : Env) (w : World) (tx : Tx) : Option VErr :=
   -- memo must be the nonce
   else match tx.memo with
     | none => some .memoParse
-    | some m => if m ≠ tx.nonce then some .memoNonce else none
+    | some m => if m ≠ tx.nonce ∨ tx.memoCanon = false then some .memoNonce else none
 
 inductive TErr where
   | nonceLow | notEOA | funds | gasPool | intrinsic | fundsTransfer
@@ -345,10 +345,10 @@ def evmCall (s : St) (tx : Tx) (to : Addr) (gas : Nat) (vm : VmOut) : Option (St
   else if evmCode (transfer (callPrep s to) tx.sender to tx.value) to = false then
     some (transfer (callPrep s to) tx.sender to tx.value, gas, false)             -- no code: gas unchanged
   else if vm.failed = true then                                                   -- RevertToSnapshot
-    some (markAll s ((if tx.value ≠ 0 then [tx.sender, to] else []) ++ vm.touched), vm.gasLeft, true)
+    some (s, vm.gasLeft, true)
   else match applyEffs (transfer (callPrep s to) tx.sender to tx.value) vm.effs with
     | none => none
-    | some s3 => some (markAll s3 vm.touched, vm.gasLeft, false)
+    | some s3 => some (s3, vm.gasLeft, false)
 
 /-- `EVM.create` after the collision test: fresh account (balance carried over), nonce 1 (EIP-158),
     value transfer -/
@@ -363,10 +363,10 @@ def evmCreate (env : Env) (s : St) (tx : Tx) (vm : VmOut) (gas : Nat) : Option (
     let a := env.newAddr
     if evmNonce s0 a ≠ 0 ∨ evmCode s0 a = true then some (s0, 0, true)            -- ErrContractAddressCollision
     else if vm.failed = true then                                                 -- RevertToSnapshot
-      some (markAll s0 ((if tx.value ≠ 0 then [tx.sender, a] else [a]) ++ vm.touched), vm.gasLeft, true)
+      some (s0, vm.gasLeft, true)
     else match applyEffs (createPrep s0 tx a) vm.effs with
       | none => none
-      | some s3 => some (markAll (if vm.retCode = true then setCode s3 a else s3) vm.touched, vm.gasLeft, false)
+      | some s3 => some (if vm.retCode = true then setCode s3 a else s3, vm.gasLeft, false)
 
 structure ExecResult where
   usedGas : Nat
@@ -457,6 +457,25 @@ def checkOlvm (env : Env) (s : St) (tx : Tx) : St × Nat :=
   match validate env s.w tx with
   | some _ => (s, 1)
   | none => (s, 0)
+
+/-! ## what `Finalise` deletes -/
+
+/-- what the objects `Finalise` drops still hold: this amount leaves the ledger (0 unless a
+    contract was paid after its SELFDESTRUCT in the same transaction) -/
+def burntAt : List (Addr × Obj) → Int
+  | [] => 0
+  | p :: t => (if gone p.2 then p.2.bal else 0) + burntAt t
+
+/-- the amount an OLVM transaction burns: what the dropped objects hold when an executed
+    transaction is finalised; nothing for a refused one -/
+def burnt (env : Env) (s : St) (tx : Tx) (vm : VmOut) : Int :=
+  match validate env s.w tx with
+  | some _ => 0
+  | none =>
+    match transitionDb env s tx vm with
+    | some (s1, .ok er) =>
+      if er.usedGas = 0 ∨ (er.usedGas : Int) > tx.gas then 0 else burntAt s1.cache
+    | _ => 0
 
 /-! ## histories -/
 
